@@ -692,6 +692,8 @@ SequenceOfLabelsGetSize(const uint8_t *buf, size_t buf_size, size_t *name_len_re
 			(*name_len_ret) = (size_t)(cur_pos - buf);
 			return (0);// XXX if its wrong, then error will be generated in other place
 		case SEQ_LABEL_CTRL_COMPRESSED: //11------ // RFC 1035 4.1.4: 14 bits = offset from the start of the message
+			if (cur_pos >= max_pos)
+				return (EBADMSG); /* No second offset byte in buf. */
 			(*name_len_ret) = (size_t)((cur_pos - buf) + 1); // 1 = 1 offset byte (low 8 bits of offset)
 			return (0);
 		}
@@ -710,7 +712,7 @@ SequenceOfLabelsToDomainName(const uint8_t *buf, size_t buf_size, uint8_t *name,
 
 	if (NULL == buf || 0 == buf_size || NULL == name || 0 == name_buf_size)
 		return (EINVAL);
-	if (name_buf_size < (buf_size - 1)) { // small out buffer
+	if (name_buf_size < buf_size) { // small out buffer: every label byte may become a name byte, plus terminator
 		if (NULL != name_len_ret) {
 			(*name_len_ret) = buf_size;
 		}
@@ -731,7 +733,7 @@ SequenceOfLabelsToDomainName(const uint8_t *buf, size_t buf_size, uint8_t *name,
 		if ((cur_pos + label) > max_pos)
 			return (EBADMSG); /* Out of buf range. */
 		if (0 == label) { // null label = end of name, ALL DONE!!!
-			if (0 != (cur_pos - buf)) { // clear last dot
+			if (1 != (cur_pos - buf)) { // clear last dot (the root name has none)
 				name --;
 			}
 			(*name) = 0; // set zero at the end
